@@ -265,7 +265,11 @@ func genRobustPlan(seed uint64, tier string) *Plan {
 				base.I = map[string]int{"twice": 1} // the stray answer is retransmitted
 			}
 		}
-		if len(data) == 0 && base.S["how"] != "silent-connection" && base.S["how"] != "many-short-lived-clients" {
+		if base.Proto == "udp" && base.S["how"] == "truncated" && g.chance(10) {
+			data = []byte{} // a datagram without payload: a read of zero bytes that is not an end of anything
+			base.S["how"] = "empty-datagram"
+		}
+		if len(data) == 0 && base.S["how"] != "silent-connection" && base.S["how"] != "many-short-lived-clients" && base.S["how"] != "empty-datagram" {
 			data = []byte("\r\n")
 		}
 		if base.Proto == "udp" && len(data) > 65000 {
